@@ -1,5 +1,6 @@
 import BstreamVerif.Props.C13
 import BstreamVerif.Props.C09
+import BstreamVerif.Props.C06
 import BstreamVerif.Props.C01
 import BstreamVerif.Lemmas.Seam
 import BstreamVerif.Lemmas.StepCheckSound
@@ -212,27 +213,24 @@ theorem getLast?_dropWhile {α} (p : α → Bool) (K : List α) (h : K.dropWhile
       | cons b r => simp [List.getLast?_cons_cons]
     · rw [List.dropWhile_cons_of_neg ha]
 
-/-- **File-to-live handoff by block number, at consumer level.** The stream has delivered the merged blocks `fb`
-    (parent-linked from the block `r0` the consumer rests on, each new and irreversible at once); the hub — in any state
-    satisfying the forkable invariant, with pending chain `P` — serves the request for block `n` (at or below its LIB,
-    retained on its chain), and the first block of its answer is the child of the last file block ("files and hub
-    cover one chain"). Then the file deliveries, the hub's burst and **everything the hub delivers afterwards**, for any
-    later history of blocks of one consistent block tree, form one sequence that the push/pop consumer accepts: every
-    New extends its tip, every Undo pops it, every Irreversible announces its oldest pending block — and after the burst
-    the consumer stands exactly where the hub's own consumer stands (`⟨LIB, P⟩`), so nothing is missing and nothing is
-    delivered twice across the seam. -/
-theorem handoff_by_number_is_seamless (cfg : Forkable.Config) (hnew : cfg.matches .new = true)
+/-- **The seam, in general**: whatever the stream delivered before the handoff (`pre`: merged blocks, or the undo /
+    irreversible / new+irreversible events the cursor resolver produced for a start from a cursor — the joining source
+    asks the hub by block number in both cases), as long as it left the consumer `c0` resting on a block `t` with
+    nothing pending, and the first block of the hub's answer is the child of `t`: the deliveries before the handoff,
+    the hub's burst and everything the hub delivers afterwards form one sequence the push/pop consumer accepts, and
+    after the burst the consumer stands exactly where the hub's own consumer stands. -/
+theorem handoff_is_seamless (cfg : Forkable.Config) (hnew : cfg.matches .new = true)
     (hundo : cfg.matches .undo = true) (hirr : cfg.matches .irreversible = true)
     (U : Id → Option Blk) (hU : UOK U) (F : List Id) (s : FState) (P : List Id) (hI : Inv s P) (hJ : Inv2 U F s.db)
     (h : Blk) (seg : List Entry) (hs : headSegment s = some (h, seg))
     (hnum : ∀ e, s.db.find h.id = some e → e.blk.num = h.num)
     (n : Nat) (hn : n ≤ s.db.libRef.num) (hex : ∃ e ∈ seg, e.blk.num = n)
-    (r0 : Id) (fb : List Blk) (hfile : linkedBlks r0 fb)
-    (hjoin : ∀ e, (seg.dropWhile (fun e => e.blk.num != n)).head? = some e → e.blk.parent = topOf r0 (fb.map (·.id)))
+    (c0 : CS) (pre : List Event) (t : Id) (hpre : c0.run pre = some ⟨t, []⟩)
+    (hjoin : ∀ e, (seg.dropWhile (fun e => e.blk.num != n)).head? = some e → e.blk.parent = t)
     (hist : List Blk) (hin : ∀ b ∈ hist, U b.id = some b) (hL : Props.C01.LibHistOK cfg s hist) :
     ∃ burst P', blocksFromNum s n = some burst ∧
-      (⟨r0, []⟩ : CS).run (fb.map (Resolver.fileEv .newIrreversible) ++ burst) = some ⟨s.db.libRef.id, P⟩ ∧
-      (⟨r0, []⟩ : CS).run (fb.map (Resolver.fileEv .newIrreversible) ++ burst ++ (runHistory cfg s hist).2) =
+      c0.run (pre ++ burst) = some ⟨s.db.libRef.id, P⟩ ∧
+      c0.run (pre ++ burst ++ (runHistory cfg s hist).2) =
         some ⟨(runHistory cfg s hist).1.db.libRef.id, P'⟩ ∧
       Inv (runHistory cfg s hist).1 P' := by
   obtain ⟨K, PE, hseg, hP, hPE, hK, hlast⟩ := headSegment_shape s P hI h seg hs hnum
@@ -259,21 +257,20 @@ theorem handoff_by_number_is_seamless (cfg : Forkable.Config) (hnew : cfg.matche
       | cons a t => rfl
     rw [hne]; rfl
   -- it is parent-linked from the last file block
-  have hlinked : linkedBlks (topOf r0 (fb.map (·.id))) ((K.dropWhile p ++ PE).map (·.blk)) := by
+  have hlinked : linkedBlks t ((K.dropWhile p ++ PE).map (·.blk)) := by
     rw [← hdw]
     apply linkedBlks_of_linkedE
     · exact linkedE_dropWhile p seg (headSegment_linked s h seg hs)
     · exact hjoin
   -- the retained final blocks end with the LIB block
-  have htopA : topOf (topOf r0 (fb.map (·.id))) ((K.dropWhile p).map (·.blk.id)) = s.db.libRef.id := by
+  have htopA : topOf t ((K.dropWhile p).map (·.blk.id)) = s.db.libRef.id := by
     rcases hlast with hnil | ⟨eL, hg, hid⟩
     · rw [hnil] at hAne; simp at hAne
     · unfold topOf
       rw [List.getLast?_map, getLast?_dropWhile p K hAne, hg]
       simpa using hid
-  have hrun1 : (⟨r0, []⟩ : CS).run (fb.map (Resolver.fileEv .newIrreversible) ++
-      (K.dropWhile p ++ PE).map (Props.C09.fromNumEv s h)) = some ⟨s.db.libRef.id, P⟩ := by
-    rw [run_append, run_fileEvs r0 fb hfile]
+  have hrun1 : c0.run (pre ++ (K.dropWhile p ++ PE).map (Props.C09.fromNumEv s h)) = some ⟨s.db.libRef.id, P⟩ := by
+    rw [run_append, hpre]
     simp only [Option.bind_some]
     rw [run_burst s h _ _ PE hA hPE hlinked, htopA, hP]
   have hsent : s.lastSent.isSome = true := by
@@ -287,6 +284,81 @@ theorem handoff_by_number_is_seamless (cfg : Forkable.Config) (hnew : cfg.matche
   refine ⟨_, P', hburst, hrun1, ?_, hI'⟩
   rw [run_append, hrun1]
   exact hrun2
+
+/-- **File-to-live handoff by block number, at consumer level.** The stream has delivered the merged blocks `fb`
+    (parent-linked from the block `r0` the consumer rests on, each new and irreversible at once); the hub — in any state
+    satisfying the forkable invariant, with pending chain `P` — serves the request for block `n` (at or below its LIB,
+    retained on its chain), and the first block of its answer is the child of the last file block ("files and hub
+    cover one chain"). Then the file deliveries, the hub's burst and **everything the hub delivers afterwards**, for any
+    later history of blocks of one consistent block tree, form one sequence that the push/pop consumer accepts: every
+    New extends its tip, every Undo pops it, every Irreversible announces its oldest pending block — and after the burst
+    the consumer stands exactly where the hub's own consumer stands (`⟨LIB, P⟩`), so nothing is missing and nothing is
+    delivered twice across the seam. -/
+theorem handoff_by_number_is_seamless (cfg : Forkable.Config) (hnew : cfg.matches .new = true)
+    (hundo : cfg.matches .undo = true) (hirr : cfg.matches .irreversible = true)
+    (U : Id → Option Blk) (hU : UOK U) (F : List Id) (s : FState) (P : List Id) (hI : Inv s P) (hJ : Inv2 U F s.db)
+    (h : Blk) (seg : List Entry) (hs : headSegment s = some (h, seg))
+    (hnum : ∀ e, s.db.find h.id = some e → e.blk.num = h.num)
+    (n : Nat) (hn : n ≤ s.db.libRef.num) (hex : ∃ e ∈ seg, e.blk.num = n)
+    (r0 : Id) (fb : List Blk) (hfile : linkedBlks r0 fb)
+    (hjoin : ∀ e, (seg.dropWhile (fun e => e.blk.num != n)).head? = some e → e.blk.parent = topOf r0 (fb.map (·.id)))
+    (hist : List Blk) (hin : ∀ b ∈ hist, U b.id = some b) (hL : Props.C01.LibHistOK cfg s hist) :
+    ∃ burst P', blocksFromNum s n = some burst ∧
+      (⟨r0, []⟩ : CS).run (fb.map (Resolver.fileEv .newIrreversible) ++ burst) = some ⟨s.db.libRef.id, P⟩ ∧
+      (⟨r0, []⟩ : CS).run (fb.map (Resolver.fileEv .newIrreversible) ++ burst ++ (runHistory cfg s hist).2) =
+        some ⟨(runHistory cfg s hist).1.db.libRef.id, P'⟩ ∧
+      Inv (runHistory cfg s hist).1 P' :=
+  handoff_is_seamless cfg hnew hundo hirr U hU F s P hI hJ h seg hs hnum n hn hex ⟨r0, []⟩ _ _
+    (run_fileEvs r0 fb hfile) hjoin hist hin hL
+
+/-- what the cursor resolver delivers for a New cursor on the canonical chain (`C06.on_chain_new_cursor`), seen by the
+    consumer that stood at the cursor — resting on the cursor's LIB, holding the canonical blocks up to the cursor
+    block: its pending blocks are announced final oldest first, then every later merged block arrives new and
+    irreversible; nothing stays pending -/
+theorem resolver_events_leave_nothing_pending (files : List Resolver.ForkFile) (c : Cur) (lo mid post : List Blk) (cb : Blk)
+    (hlo : ∀ b ∈ lo, b.num ≤ c.lib.num) (hmid : ∀ b ∈ mid, c.lib.num < b.num ∧ b.num < c.block.num)
+    (hcb : cb.id = c.block.id) (hcn : cb.num = c.block.num) (hlt : c.lib.num < c.block.num)
+    (hstep : c.step ≠ .undo) (hpost : linkedBlks cb.id post) :
+    (⟨c.lib.id, (mid ++ [cb]).map (·.id)⟩ : CS).run (Resolver.run files c false (lo ++ mid ++ cb :: post)).1 =
+      some ⟨topOf cb.id (post.map (·.id)), []⟩ := by
+  have hpre : ∀ b ∈ lo ++ mid, b.num < c.block.num := by
+    intro b hb
+    rcases List.mem_append.mp hb with hb | hb
+    · have := hlo b hb; omega
+    · exact (hmid b hb).2
+  rw [Props.C06.on_chain_new_cursor files c (lo ++ mid) post cb hpre hcb (by omega) hstep]
+  simp only
+  have hsb : Resolver.sendBetween .irreversible (lo ++ mid ++ [cb]) c.lib.num c.block.num =
+      (mid ++ [cb]).map (Resolver.fileEv .irreversible) := by
+    unfold Resolver.sendBetween
+    rw [List.append_assoc, List.filter_append]
+    have h1 : lo.filter (fun b => decide (b.num > c.lib.num) && decide (b.num ≤ c.block.num)) = [] := by
+      rw [List.filter_eq_nil_iff]
+      intro b hb
+      have := hlo b hb
+      simp; omega
+    have h2 : (mid ++ [cb]).filter (fun b => decide (b.num > c.lib.num) && decide (b.num ≤ c.block.num)) = mid ++ [cb] := by
+      rw [List.filter_eq_self]
+      intro b hb
+      rcases List.mem_append.mp hb with hb | hb
+      · have := hmid b hb; simp; omega
+      · simp only [List.mem_singleton] at hb; subst hb; simp; omega
+    rw [h1, h2]; rfl
+  rw [hsb, run_append]
+  have e1 : (⟨c.lib.id, (mid ++ [cb]).map (·.id)⟩ : CS).run ((mid ++ [cb]).map (Resolver.fileEv .irreversible)) =
+      some ⟨cb.id, []⟩ := by
+    unfold CS.run
+    have : ((mid ++ [cb]).map (Resolver.fileEv .irreversible)).map sbOf = (mid ++ [cb]).map (fun b => (Step.irreversible, b)) := by
+      simp [sbOf, Resolver.fileEv]
+    rw [this]
+    have := runSB_irrs c.lib.id (mid ++ [cb]) []
+    simp only [List.append_nil] at this
+    rw [this]
+    simp [topOf]
+  rw [e1]
+  simp only [Option.bind_some]
+  exact run_fileEvs cb.id post hpost
+
 
 end Seamless
 
